@@ -203,7 +203,8 @@ impl InferShapes for Where {
                 .zip(xs.zip(ys))
                 .map(|(cond, (x, y))| {
                     let cond_bool = match cond {
-                        SymExpr::Value(v) => Some(*v == 1),
+                        // The operator selects `x` for any non-zero element.
+                        SymExpr::Value(v) => Some(*v != 0),
                         SymExpr::Var(_)
                         | SymExpr::Neg(_)
                         | SymExpr::Add(..)
@@ -222,8 +223,15 @@ impl InferShapes for Where {
                     }
                 })
                 .collect();
-            if let Some(vals) = vals {
-                return Ok([SymTensor::from_vec(vals)].into());
+            if let Some(mut vals) = vals {
+                // The result is a scalar only if all inputs are scalars.
+                let all_scalar = [cond, x, y].iter().all(|t| t.as_scalar().is_some());
+                let value = if all_scalar {
+                    SymTensor::from_scalar(vals.remove(0))
+                } else {
+                    SymTensor::from_vec(vals)
+                };
+                return Ok([value].into());
             }
         }
 
